@@ -13,8 +13,8 @@
 (* shapes through SPSDK's public classes.                                                                      *)
 EXTENDS Sb2Rom, Json, IOUtils
 CONSTANTS MaxSecs, MaxHm, MaxCmds, MaxPay, Chains
-VARIABLES shape, i, bad
-vars == <<st, hdr, cur, sec, needCert, hm, body, left, cmdAt, cov, certEnd, sigEnd, macSum, dec, shape, i, bad>>
+VARIABLES shape, evs, i, bad
+vars == <<st, hdr, cur, sec, needCert, hm, body, left, cmdAt, cov, certEnd, sigEnd, macSum, dec, shape, evs, i, bad>>
 
 \* certificate chains of the key pool: <<number of certificates, certificate-table length in bytes, signature length>>
 \* (the harness checks these numbers against the files in keys/ before it uses the shapes)
@@ -107,15 +107,16 @@ Ideal(sh) ==
   \o <<[ev |-> "Accept", cur |-> ImageBlocks(sh), nSections |-> Len(sh.secs)]>>
 
 \* ---- the automaton driven by the ideal events
-Evs == Ideal(shape)
+Evs == evs
 Ev == Evs[i]
 At(name) == i <= Len(Evs) /\ Ev.ev = name
-Step == i' = i + 1 /\ UNCHANGED <<shape, bad>>
+Step == i' = i + 1 /\ UNCHANGED <<shape, evs, bad>>
 \* bad = -1: untampered file;  bad = b: block b is corrupted (only a few representative shapes are tampered, all of their blocks)
 Init == /\ RInit /\ shape \in Shapes /\ i = 1
         /\ bad \in {0 - 1} \cup (IF Len(shape.secs) = 1 /\ shape.secs[1].hm = MaxHm /\ Len(shape.secs[1].cmds) = MaxCmds
                                    /\ \A j \in 1..MaxCmds : shape.secs[1].cmds[j] = (j % (MaxPay + 1))
                                  THEN 0..(FileBlocks(shape) - 1) ELSE {})
+        /\ evs = Ideal(shape)
 DoParseHeader == At("ParseHeader") /\ ParseHeader(Ev) /\ Step
 DoUnwrap == At("UnwrapKeyBlob") /\ UnwrapKeyBlob(Ev) /\ Step
 DoHdrMac20 == At("CheckHeaderMac") /\ CheckHeaderMac20(Ev) /\ Step
